@@ -25,7 +25,7 @@ SYNTAX_FMT = {'css': (': ', ';'), 'scss': (': ', ';'), 'less': (': ', ';'), 'sas
 OPTION_SPACE = {
     'stylesheet.intUnit': ['px', 'pt'],
     'stylesheet.floatUnit': ['em', 'rem'],
-    'stylesheet.unitAliases': [None, {'e': 'em', 'p': 'pc', 'x': 'ex', 'r': 'rpx'}],
+    'stylesheet.unitAliases': [None, {'e': 'em', 'p': 'pc', 'x': 'ex', 'r': 'rpx'}, {'x': 'vmin'}],
     'stylesheet.shortHex': [True, False],
     'stylesheet.between': [None, ':'],
     'stylesheet.after': [None, ' ;'],
@@ -241,7 +241,12 @@ def run_batch(cases, syntax, opts, ctx):
         ctx.evals += 1
         bad = single(c, a, syntax, opts)
         if bad:
-            ctx.violation(bad[0], dict(abbr=a, syntax=syntax, options=o, case=case_json(c)), bad[1])
+            ctx.violation(bad[0] + suffix(o), dict(abbr=a, syntax=syntax, options=o, case=case_json(c)), bad[1])
+
+
+def suffix(o):
+    "violation classes are kept apart per set of deviating options, so that each gets its own minimal witness"
+    return ('|' + ','.join(sorted(o))) if o else ''
 
 
 def single(c, abbr, syntax, opts):
@@ -375,7 +380,7 @@ def check_case(case):
     c = case_from_json(case['case'])
     opts = dict(case.get('options') or {})
     bad = single(c, case['abbr'], case['syntax'], opts)
-    return [bad] if bad else []
+    return [(bad[0] + suffix(dict((k, v) for k, v in opts.items() if v is not None)), bad[1])] if bad else []
 
 
 def repro(case):
